@@ -321,7 +321,7 @@ def gen_items(rng, leaves, tier):
         items += [b"\x00" * 32, b"\xff" * 32]
     # the model's SHA-256 costs ~3 ms per node hash: bound (2 + queries) * hashes per line
     h = max(1, hash_cost(ref_root, leaves))
-    q = max(1, (1000 if tier == "quick" else 8000) // h - 2)
+    q = max(1, (300 if tier == "quick" else 8000) // h - 2)
     return items[:q]
 
 
@@ -373,7 +373,7 @@ def candidate_lines(rng, tier, set_cases, impl_out):
     """mutants of the honest proofs the implementation produced -> [(validate line, meta)]"""
     cands = []
     budget = 1600 if tier == "quick" else 40000
-    hcost, hbudget = 0, (25000 if tier == "quick" else 600000)
+    hcost, hbudget = 0, (10000 if tier == "quick" else 600000)
     order = list(range(len(set_cases)))
     rng.shuffle(order)
     for ci in order:
@@ -433,6 +433,9 @@ def nesting_cases(rng):
     out = []
     for k in (1, 2, 254, 255, 256, 257, 258, 259):
         for shape in ("left-empty", "right-empty", "leafpair"):
+            # the one-sided chains hash every level (k node hashes, ~6 ms each in the model): keep the boundary ones
+            if (shape == "left-empty" and k not in (1, 256, 257, 258)) or (shape == "right-empty" and k not in (2, 255, 257)):
+                continue
             x = rng.bytes(32)
             if shape == "left-empty":
                 pb = b"\x02" * k + b"\x00" + b"\x00" * k
@@ -469,6 +472,21 @@ def malformed_cases(rng, tier):
     return out
 
 
+def run_impl(lines, tier, timeout=None):
+    """run the implementation side; a shard that hangs (TIMEOUT) is re-run line by line with a short
+    timeout so that the hanging case itself is identified and the others still get their result"""
+    from concurrent.futures import ThreadPoolExecutor
+    timeout = timeout or (90 if tier == "quick" else 900)
+    out = C.run_lines(C.VH(UNIT), lines, timeout=timeout)
+    idx = [i for i, o in enumerate(out) if o == "TIMEOUT"]
+    if idx:
+        with ThreadPoolExecutor(max_workers=C.NPROC) as ex:
+            res = list(ex.map(lambda i: C._run_shard((C.VH(UNIT), [lines[i]], max(10, timeout // 6)))[0], idx))
+        for i, r in zip(idx, res):
+            out[i] = r
+    return out
+
+
 def run(ctx):
     rep, tier = ctx["rep"], ctx["tier"]
     rng = C.SplitMix64(ctx["seed"])
@@ -480,7 +498,7 @@ def run(ctx):
         if not fi:
             return
         line = fi["case"]
-        impl = C.run_lines(C.VH(UNIT), [line])
+        impl = run_impl([line], tier)
         if line.startswith("mset.o_"):
             if not impl[0].startswith("OK"):
                 rep.add_failure(line.split(" ")[0], line, impl[0], "OK", "implementation-level oracle fails on the replayed case")
@@ -503,11 +521,17 @@ def run(ctx):
     sets = gen_sets(rng.fork("sets"), tier)
     irng = rng.fork("items")
     set_cases = []
+    deep_budget = 5000 if tier == "quick" else 10 ** 9     # node hashes spent on sets with long hashed chains
     for leaves, kind in sets:
+        h = hash_cost(ref_root, leaves)
+        if h > 60:
+            if 3 * h > deep_budget:
+                continue
+            deep_budget -= 3 * h
         items = gen_items(irng, leaves, tier)
         set_cases.append((set_line(items, leaves), items, leaves, kind))
     lines = [c[0] for c in set_cases]
-    impl = C.run_lines(C.VH(UNIT), lines)
+    impl = run_impl(lines, tier)
     tm["set_impl"] = round(time.time() - t0, 1)
     model = C.run_lines(C.VRUN(UNIT), lines) if have_model else ["MODEL-UNAVAILABLE"] * len(lines)
     tm["set_model"] = round(time.time() - t0, 1)
@@ -548,7 +572,7 @@ def run(ctx):
     # also honest + mutated proofs through from_proof
     for l, m in cands[:200 if tier == "quick" else 4000]:
         fp_lines.append("mset.fromproof %s %s" % (hexo(m[1]), m[2].hex()))
-    fp_impl = C.run_lines(C.VH(UNIT), fp_lines)
+    fp_impl = run_impl(fp_lines, tier)
     fp_model = C.run_lines(C.VRUN(UNIT), fp_lines) if have_model else ["MODEL-UNAVAILABLE"] * len(fp_lines)
     if have_model:
         diff_stream(rep, "mset.fromproof", fp_lines, fp_impl, fp_model,
@@ -561,7 +585,7 @@ def run(ctx):
             cands.append(("mset.validate %s %s %s" % (hexo(pb), it.hex(), own_root), (kind, pb, it, None)))
         cands.append(("mset.validate %s %s %s" % (hexo(pb), it.hex(), nrng.bytes(32).hex()), (kind, pb, it, None)))
     vlines = [c[0] for c in cands]
-    v_impl = C.run_lines(C.VH(UNIT), vlines)
+    v_impl = run_impl(vlines, tier)
     v_model = C.run_lines(C.VRUN(UNIT), vlines) if have_model else ["MODEL-UNAVAILABLE"] * len(vlines)
     vmeta = {c[0]: c[1] for c in cands}
     if have_model:
@@ -610,7 +634,7 @@ def run(ctx):
                   (2, [orng.bytes(32) for _ in range(4)]), (3, [z(0x10), z(0x30), z(0x20)])]
     for d, pool in pools:
         olines.append("mset.o_exh %d %s" % (d, " ".join(x.hex() for x in pool)))
-    o_out = C.run_lines(C.VH(UNIT), olines, timeout=3000)
+    o_out = run_impl(olines, tier, 150 if tier == "quick" else 3000)
     ostats = {}
     for l, o in zip(olines, o_out):
         op = l.split(" ")[0]
